@@ -191,22 +191,42 @@ func checkParseValid(cd *concDoc) error {
 		}
 		want := cd.expected.LastWins()
 		for vi, text := range []string{cd.text, cd.text + "  trailing ] } text", cd.text + "\n"} {
+			// a rejected text parsed just before (same goroutine) must not influence how the valid one is read
+			poisonBefore(len(cd.text) + vi)
 			p, err := jsonx.Parse(cd.root, text)
 			if err != nil {
-				return fmt.Errorf("valid document rejected (variant %d): %v", vi, err)
+				return fmt.Errorf("valid document rejected (variant %d, parsed right after the rejected text %q): %v", vi, poisons[(len(cd.text)+vi)%len(poisons)], err)
 			}
 			got, err := jsonx.Project(p)
 			if err != nil {
 				return fmt.Errorf("parsed container cannot be read: %v", err)
 			}
 			if err := jsonx.EqualTree(want, got, "$"); err != nil {
-				return fmt.Errorf("parsed tree differs from the reference decoder (variant %d): %v", vi, err)
+				return fmt.Errorf("parsed tree differs from the reference decoder (variant %d, parsed right after the rejected text %q): %v", vi, poisons[(len(cd.text)+vi)%len(poisons)], err)
 			}
 			// what a caller does to a parsed container must not leak into later parses
 			growAll(p)
 		}
 		return nil
 	})
+}
+
+// rejected texts that stop in the middle of a literal, an escape, a key, a nested container
+var poisons = []string{
+	`["decoded so far \q rest"]`, `["abc\ud800","x"]`, `[1,2`, `[1,"ab`, "[\"caf\xc3", `{"k\q":1}`, `{"a":tru`, `[[[`, `{"a":{"b":[1,`,
+	`["\u12"]`, `[nul`, `[1e]`, `{"key`, `{"a":"v\`, `[12345678901234567890123,`, `{"a":[1,2,{"b":"c\u00`, `["ok","\ud83d\u00e9"]`, `[-`,
+}
+
+func poisonBefore(n int) {
+	t := poisons[n%len(poisons)]
+	func() {
+		defer func() { recover() }() // totality is C04's business
+		if t[0] == '[' {
+			at.ParseList(t)
+		} else {
+			at.ParseObject(t)
+		}
+	}()
 }
 
 // growAll adds an element / a field to every container of a parsed result.
